@@ -6,6 +6,7 @@ import (
 	"os"
 	"path/filepath"
 	"regexp"
+	"sort"
 	"strings"
 )
 
@@ -696,4 +697,69 @@ func writeCurveTemplate(repoRoot, srcRoot, verifRoot, tmpl, fileName string, pkg
 		stale += installText(filepath.Join(repoRoot, rel, fileName), strings.ReplaceAll(string(b), "CURVEPKG", pkg), check)
 	}
 	return stale
+}
+
+// ---------------- exponentiation in the target group (C06) ----------------
+
+// gtExpTypes lists, per tower package, the extension types whose Exp is the 2-bit fixed-window loop.
+func gtExpTypes(srcRoot string) map[string][]string {
+	out := map[string][]string{}
+	for _, pk := range globPkgs(srcRoot, "ecc/*/internal/fptower") {
+		dir := filepath.Join(srcRoot, strings.TrimPrefix(pk, "./"))
+		for _, t := range []string{"E6", "E12", "E24"} {
+			b, err := os.ReadFile(filepath.Join(dir, strings.ToLower(t)+".go"))
+			if err != nil {
+				continue
+			}
+			src := string(b)
+			i := strings.Index(src, "func (z *"+t+") Exp(x "+t+", k *big.Int) *"+t+" {")
+			if i < 0 {
+				continue
+			}
+			body := src[i:]
+			if j := strings.Index(body, "\n}\n"); j >= 0 {
+				body = body[:j]
+			}
+			if strings.Contains(body, "ops[2].Set(&ops[0]).Mul(&ops[2], &ops[1])") && strings.Contains(body, "res.Square(&res).Square(&res)") {
+				out[pk] = append(out[pk], t)
+			}
+		}
+	}
+	return out
+}
+
+func writeGTExp(repoRoot, srcRoot, verifRoot string, check bool) int {
+	b, err := os.ReadFile(filepath.Join(verifRoot, "contracts", "tower", "gtexp.go.tmpl"))
+	if err != nil {
+		return 0
+	}
+	tmpl := string(b)
+	i := strings.Index(tmpl, "//@ func TYPE.Exp")
+	if i < 0 {
+		return 0
+	}
+	head, block := tmpl[:i], tmpl[i:]
+	stale := 0
+	types := gtExpTypes(srcRoot)
+	for _, pk := range sortedKeysSS(types) {
+		rel := strings.TrimPrefix(pk, "./")
+		s := strings.ReplaceAll(head, "PKG", "fptower")
+		for k, t := range types[pk] {
+			if k > 0 {
+				s += "\n"
+			}
+			s += strings.ReplaceAll(block, "TYPE", t)
+		}
+		stale += installText(filepath.Join(repoRoot, rel, "zz_verif_contracts_gtexp.go"), s, check)
+	}
+	return stale
+}
+
+func sortedKeysSS(m map[string][]string) []string {
+	var ks []string
+	for k := range m {
+		ks = append(ks, k)
+	}
+	sort.Strings(ks)
+	return ks
 }
